@@ -21,6 +21,9 @@ def plan_bufs(size_val, tier, r):
         bufs.append((n, "00"))
         return bufs
     bufs = [(n, "ee"), (n, "00"), (n + 5, "pat"), (n + 64, "ee"), (0, "00")]
+    if n <= 1024 and r.random() < 0.08:
+        # buffer lengths whose low 16 bits are smaller than n
+        bufs += [(65536, "ee"), (65536 + max(0, n - 1), "pat"), (131072 + n // 2, "00")]
     if n > 0:
         bufs.append((n - 1, "pat"))
     if n > 8:
